@@ -266,6 +266,7 @@ class Stats:
         self.hist = collections.Counter()
         self.skipped = collections.Counter()
         self.k_skipped_cost = 0
+        self.known = {}
     def add(self, cls, sample):
         e = self.fail.setdefault(cls, [0, sample]); e[0] += 1
 
@@ -343,8 +344,10 @@ def evaluate(ctx, st, m, txt, opts, cases):
                 viol("harness:" + out[:30], c, key, out); fatal = True; continue
             if not dead(out): continue
             if key in ("raw", "clean"): fatal = True
-            if match_known(ctx, c, key, out):
-                st.hist[("known-crash", c.syn)] += 1
+            kf = match_known(ctx, c, key, out)
+            if kf:
+                st.hist[("known-crash", kf["id"], c.syn)] += 1
+                st.known.setdefault(kf["id"], {"module": txt, "type": c.tn, "op": c.lines[key], "c_output": str(out)[:300]})
             else:
                 what = "hang" if out and out.startswith("HANG") else "crash"
                 site = re.sub(r"^CRASH\s+(driver: )?(/\S*/)?", "", out or "none")
@@ -615,7 +618,7 @@ def inv_module_cases():
 # ------------------------------------------------------------------------------------------ report / replay / run
 def report(ctx, st):
     if os.environ.get("C07_DUMP"):
-        json.dump({"fail": st.fail, "kdis": st.kdis[:50]}, open(os.environ["C07_DUMP"], "w"), indent=1)
+        json.dump({"fail": st.fail, "kdis": st.kdis[:50], "known": st.known}, open(os.environ["C07_DUMP"], "w"), indent=1)
     shown = 0
     for cls, (n, sample) in st.fail.items():
         if shown >= 6:
@@ -693,7 +696,7 @@ def run(ctx):
                     if kind.startswith("omit:") and kind[5:].replace("_", " ") in BUF_KINDS | {"INTEGER t"}:
                         # F72 region (zero-initialised buf/size primitive): a few per module, each costs process restarts
                         nbuf_omit += 1
-                        if nbuf_omit > (2 if ctx.quick else 10): continue
+                        if nbuf_omit > int(os.environ.get("C07_OMIT", 2 if ctx.quick else 10)): continue
                     seen.add(sx); cnt += 1
                     items.append((n, sx, kind, False, MUST_FAIL.get(kind, set())))
                     if cnt >= nvar: break
